@@ -166,7 +166,9 @@ def corruptions(rng, kind, doc, n):
             if f in ("unified", "additional_variants") and f not in tgt:
                 continue
             tgt[f] = v
-            out.append({"doc": d, "what": "value:%s.%s=%r" % (skind, f, v), "must_reject": True})
+            # enumerated fields the readers do not coerce: a value outside the enumeration can only be rejected
+            strict = f in ("type", "format") and skind in ("image", "variant", "base_product", "compose")
+            out.append({"doc": d, "what": "%s:%s.%s=%r" % ("enum" if strict else "value", skind, f, v), "must_reject": True})
     return out
 
 
@@ -210,7 +212,7 @@ def ti_corruptions(rng, table, n):
         else:
             choices = [("release", "version", rng.choice(["1.", "2b", "1..2"])), ("tree", "arch", ""), ("tree", "build_timestamp", rng.choice(["abc", "0", ""])),
                        ("release", "is_layered", "maybe")]
-            choices += [(s, "type", rng.choice(["bogus", "layered-product", "Variant"])) for s in vsecs] + [(s, "id", "a-b") for s in vsecs]
+            choices += [(s, "type", "bogus") for s in vsecs] + [(s, "type", "layered-product") for s in vsecs] + [(s, "id", "a-b") for s in vsecs]
             choices += [(s, sorted(t[s])[0], "/abs/img") for s in isecs if t[s]]
             for isec in isecs:
                 # images listed for a platform that [tree] no longer names (the tree's own architecture included)
@@ -229,6 +231,8 @@ def ti_corruptions(rng, table, n):
                 continue
             t[sec][key] = v
             what = "value:%s.%s=%r" % (sec.split("-")[0], key, v)
+            if key == "type" and (sec.startswith("variant-") or sec.startswith("addon-")):
+                what = "enum:variant.type=%r" % v
             if (sec, key) == ("tree", "platforms"):
                 what = "cross-field:tree.platforms=%r although an [images-*] section exists for a platform no longer listed" % v
         out.append({"text": render_ini(t), "what": what, "must_reject": True})
